@@ -81,6 +81,8 @@ class JsonParser(object):
         elif category == "scenario":
             scenario = self.parse_scenario(json_element)
             feature.add_scenario(scenario)
+            # -- NOTE: JSON scenario steps contain the background steps already.
+            scenario.use_background = False
         elif category == "scenario_outline":
             scenario_outline = self.parse_scenario_outline(json_element)
             feature.add_scenario(scenario_outline)
